@@ -45,8 +45,7 @@ class ImmutableKnotVector(tuple):
         npts = lenght - degree - 1
         if not 0 <= degree < npts:
             return False
-        knots = ImmutableKnotVector.__get_unique(vector[degree : npts + 1])
-        for knot in knots:
+        for knot in vector[degree : npts + 1]:
             mult = vector.count(knot)
             if mult > degree + 1:
                 return False
